@@ -1,0 +1,56 @@
+//go:build verif
+
+package hpack
+
+// Read-only views of the dynamic tables for the verification harness
+// (/verif). Compiled only with the "verif" build tag.
+
+// VerifTableView is a snapshot of a dynamic table.
+type VerifTableView struct {
+	Entries        []HeaderField // oldest first
+	Size           uint32
+	MaxSize        uint32
+	AllowedMaxSize uint32
+	// lookup-map consistency problems found while taking the snapshot
+	Problems []string
+}
+
+func verifView(dt *dynamicTable) VerifTableView {
+	v := VerifTableView{
+		Entries:        append([]HeaderField(nil), dt.table.ents...),
+		Size:           dt.size,
+		MaxSize:        dt.maxSize,
+		AllowedMaxSize: dt.allowedMaxSize,
+	}
+	t := &dt.table
+	for name, id := range t.byName {
+		k := int64(id) - int64(t.evictCount) - 1
+		if k < 0 || k >= int64(len(t.ents)) {
+			v.Problems = append(v.Problems, "byName id out of range for "+name)
+			continue
+		}
+		if t.ents[k].Name != name {
+			v.Problems = append(v.Problems, "byName points at wrong entry for "+name)
+		}
+	}
+	for p, id := range t.byNameValue {
+		k := int64(id) - int64(t.evictCount) - 1
+		if k < 0 || k >= int64(len(t.ents)) {
+			v.Problems = append(v.Problems, "byNameValue id out of range for "+p.name)
+			continue
+		}
+		if t.ents[k].Name != p.name || t.ents[k].Value != p.value {
+			v.Problems = append(v.Problems, "byNameValue points at wrong entry for "+p.name)
+		}
+	}
+	return v
+}
+
+// VerifTable returns a snapshot of the decoder's dynamic table.
+func (d *Decoder) VerifTable() VerifTableView { return verifView(&d.dynTab) }
+
+// VerifTable returns a snapshot of the encoder's dynamic table.
+func (e *Encoder) VerifTable() VerifTableView { return verifView(&e.dynTab) }
+
+// VerifMaxSizeLimit returns the encoder's maxSizeLimit.
+func (e *Encoder) VerifMaxSizeLimit() uint32 { return e.maxSizeLimit }
